@@ -7,9 +7,8 @@ SPEC = {
                  'C36_reply_without_discipline_refuted', 'C36_discipline_satisfiable',
                  'C36_after_close_errors', 'C36_queue_close_closes_topics',
                  'C36_close_call_closes_refuted', 'C36_close_call_closes_partial',
-                 'C36_after_close_no_block_forever_refuted', 'C36_blocked_low_sender_stuck',
-                 'C36_after_close_no_block_forever_partial', 'C36_blocked_witness',
-                 'C36_partial_guard_satisfiable', 'C36_bulk_fill_agrees'],
+                 'C36_after_close_no_block_forever', 'C36_after_close_parked_send_returns_error',
+                 'C36_parked_low_sender_woken', 'C36_parked_high_sender_woken', 'C36_bulk_fill_agrees'],
     'allowed_axioms': [],
     'shard': 60,
     'check_preamble': 'From C33 Require Import C36.Model C36.Spec.\nOpen Scope N_scope.\n',
@@ -21,11 +20,11 @@ SPEC = {
             'and records which parked calls returned and len(high), len(low) per topic, len(recv) per client; at the end the '
             'sends still parked (looked at again 3 s after the last call when the queue was closed). Topics are preset through the hook with '
             'capacities high 1-3 / low 1-4 (recv is 5 as in the code); one scenario uses the real 64/40960 channels. 1-2 topics, '
-            '2-4 clients, 6-40 calls, generated online from the API-level view. Streams: guarded (discipline kept, no low '
-            'wait-forever send, only subscribed clients are closed: every spec failure is a violation), unrestricted (may hit '
-            'findings 1/2), undisciplined (FreeMessage of messages still in flight: clauses 1-2 are not promised), witness-* '
-            '(fixed: blocked low sender in 5 shapes incl. real capacities, high sender woken by close, round trip with recycling, '
-            'stale reply through a recycled message). (b) concurrent: several requesters/responders on 1-3 topics with random '
+            '2-4 clients, 6-40 calls, generated online from the API-level view. Streams: guarded (discipline kept, '
+            'only subscribed clients are closed: every spec failure is a violation), unrestricted (may hit '
+            'finding 2), undisciplined (FreeMessage of messages still in flight: clauses 1-2 are not promised), witness-* '
+            '(fixed: parked low wait-forever sender woken by close in 5 shapes incl. real capacities, high sender woken by close, '
+            'round trip with recycling, stale reply through a recycled message). (b) concurrent: several requesters/responders on 1-3 topics with random '
             'delays, timeouts, recycling and closes; per-participant logs merged; a monitor checks clauses 1-3 on the merged log '
             '(a test, not compared with the LTS). non-trivial = at least one message was enqueued or a reply taken; distinct = '
             'distinct Gallina case terms',
@@ -56,13 +55,12 @@ SPEC = {
         'after close, Wait is shown to return for messages whose topic is closed (all topics that existed at Queue.Close, '
         'C36_queue_close_closes_topics) or for callers whose own client is closed; a Wait on a message of a topic first used after '
         'Queue.Close can block (such a message cannot have been sent)',
-        'open finding 1: a low-priority wait-forever send parked before the close stays parked for ever '
-        '(C36_after_close_no_block_forever_refuted; partial theorem for every other parked send)',
         'open finding 2: Client.Close of a client that never subscribed does nothing (C36_close_call_closes_refuted)',
     ],
     'manifest': {
         'level_text': 'partial: reply/at-most-once proved for all interleavings of disciplined traces of the LTS; after-close '
-                      'errors proved; "no send blocks for ever after close" refuted (finding 1) with a partial theorem; '
+                      'errors proved; "no send blocks for ever after close" proved at full strength (every parked send returns '
+                      'an error once the queue is closed; finding 1 fixed); '
                       '"Close closes the client" refuted for never-subscribed clients (finding 2). Tie to the Go code by '
                       'scripted event-by-event correspondence; the concurrent runs are a test',
         'level_note': 'hand-written LTS, event granularity and pump atomicity as listed in the trusted base; blocking observed '
